@@ -513,11 +513,12 @@ func (s *HASyncer) startStandby() error {
 func (s *HASyncer) standbyLoop() {
 	defer s.wg.Done()
 
-	fullSyncTicker := time.NewTicker(s.config.FullSyncInterval)
-	if s.config.FullSyncInterval == 0 {
-		fullSyncTicker.Stop()
+	// FullSyncInterval <= 0 disables periodic full syncs (time.NewTicker panics
+	// on a non-positive interval, so the ticker must not be created at all).
+	if s.config.FullSyncInterval > 0 {
+		fullSyncTicker := time.NewTicker(s.config.FullSyncInterval)
+		defer fullSyncTicker.Stop()
 	}
-	defer fullSyncTicker.Stop()
 
 	for {
 		select {
